@@ -32,11 +32,12 @@ func c01(r *core.Run) {
 }
 
 func c03(r *core.Run) {
-	r.Expl = "C03 (day metadata survives reopening): decides (1) every narrowing conversion stored by GPDir.Marshal is dominated by range guards on every side its source type can exceed (signed timestamp delta: upper and lower); (2) GPDir.Unmarshal's two size guards exist, use constants that cover the bytes the decoder consumes (derived from the code), reject with an error and dominate every access and allocation; writer/reader layout agreement; (3) the duplicate-timestamp test dominates AddBlock in writeBlock; (4) GPDir.Open propagates Unmarshal errors. NOT decided: equality of re-read histories as values, rejection of every malformed byte string, >4GiB blocks."
+	r.Expl = "C03 (day metadata survives reopening): decides (1) every narrowing conversion stored by GPDir.Marshal is dominated by range guards on every side its source type can exceed (signed timestamp delta: upper and lower); (2) GPDir.Unmarshal's two size guards exist, use constants that cover the bytes the decoder consumes (derived from the code), reject with an error and dominate every access and allocation; writer/reader layout agreement; (3) the duplicate-timestamp test dominates AddBlock in writeBlock; (4) GPDir.Open propagates Unmarshal errors; (5) WriteBlocks does not modify the timestamp / traffic metadata / counters it is given before recording them (a clamp there would defeat the refusal of unrepresentable values). NOT decided: equality of re-read histories as values, rejection of every malformed byte string, >4GiB blocks."
 	r.Floor = 36
 	p := r.Prog("cgo")
-	r.Rules = append(r.Rules, "codec-layout", "decode-guards", "narrowing-guarded", "writeBlock-trace(duplicate-check)", "storage-errors(Open)")
+	r.Rules = append(r.Rules, "codec-layout", "decode-guards", "narrowing-guarded", "recorded-as-given", "writeBlock-trace(duplicate-check)", "storage-errors(Open)")
 	ruleCodecLayout(r, p)
+	ruleRecordedAsGiven(r, p)
 	ruleWriteBlockTrace(r, p, map[string]bool{"duplicate-check-dominates-add": true, "no-commit-on-error-path": true, "success-implies-commit": true})
 	if f := r.MustFunc("storage-errors", pkgGpfile, "GPDir.Open"); f != nil {
 		for _, c := range core.Calls(f.Decl.Body, false) {
@@ -61,11 +62,12 @@ func c04(r *core.Run) {
 	r.Expl = "C04 (crash during write-out): decides only that the protocol the recovery argument relies on is the one in the code — metadata published by create-temp(in the day directory) → marshal → close → rename onto the metadata path → directory rename, each step's error aborting; no other function writes the metadata path; GPDir.Close commits only if all column closes succeeded; DBWriter commits only after every WriteBlocks succeeded; summaries updated after all columns; committed bytes are never rewritten (only seek target in write mode is the committed offset, no truncate; ModeWrite constant); write ownership (who may modify files / create write-mode directories). NOT decided: the state of the files at each system-call boundary, partial writes, recovery by later write-outs — these need crash-point enumeration."
 	r.Floor = 40
 	p := r.Prog("cgo")
-	r.Rules = append(r.Rules, "commit-protocol: per-path event order (create-temp, marshal, close, rename) with error dispositions", "write-ownership", "writeBlock-trace", "open-resume")
+	r.Rules = append(r.Rules, "commit-protocol: per-path event order (create-temp, marshal, close, rename) with error dispositions", "write-ownership", "writeBlock-trace", "open-resume", "loaded-sentinel: only the loaders make GPDir.Metadata non-nil")
 	commitProtocol(r, p)
 	ruleWriteBlockTrace(r, p, map[string]bool{"rollback-between-emits": true, "flush-after-last-emit": true, "no-foreign-seek-or-truncate": true, "block-offset-is-committed-offset": true, "offset-advances-by-last-emit-count": true, "no-commit-on-error-path": true})
 	ruleWriteOwnership(r, p)
 	ruleCommittedOffsetRoles(r, p)
+	ruleMetadataSentinel(r, p)
 }
 
 func c05(r *core.Run) {
